@@ -112,8 +112,12 @@ def gen_build_spec(g, spec, box, kinds, est_size=0.6):
     return blocks
 
 
-def render(blocks, templates=None, volumes=None):
+def render(blocks, templates=None, volumes=None, bending=None):
     out = []
+    if bending:
+        out.append("[ bending ]")
+        for (a, b, c, k) in bending:
+            out.append(f"{a} {b} {c} {k}")
     for tname, t in (templates or {}).items():
         out += ["[ template ]", f"resname {tname}", "[ atoms ]"]
         for an, (atype, xyz) in t["atoms"].items():
